@@ -860,3 +860,109 @@ def store_random(ctx, profile, n, parts=8, race=False):
     st = validate_branching(ctx, "StoreTrace", "StoreTrace.cfg", os.path.join(wd, "trace.ndjson"), parts, "store/" + profile,
                             {"dict.ndjson": os.path.join(wd, "dict.ndjson")}, describe=describe_store_event)
     return r, st
+
+
+STORE_MC = {
+    # name: (cfg file, quick overrides, thorough overrides)
+    "init":   ("StoreMC.init.cfg", {"Horizon": 9000, "NewDeadlines": "{0, 3}", "CacheKinds": '{"none", "garbage", "partial", "complete", "stale"}'}, {}),
+    "poll":   ("StoreMC.poll.cfg", {"CallerSet": '{"k1"}', "Acts": '{"newstore", "fail", "refresh", "svc", "handle", "read"}'}, {}),
+    "lookup": ("StoreMC.lookup.cfg", {"CallerSet": '{"k1", "k2"}'}, {"Steps": "{300000}", "Horizon": 600000}),
+    "expiry": ("StoreMC.expiry.cfg", {"Expiries": "{30000}", "CacheKinds": '{"undeclared"}', "Horizon": 31000}, {}),
+}
+
+
+def store_mc(ctx, fam, invariants_note):
+    f, q, t = STORE_MC[fam]
+    run = ctx.tlc("StoreMC", f, workers=NCPU, name="mc-" + fam, timeout=3000, heap="12g", consts=(t if ctx.thorough else q))
+    ctx.tlc_must_pass(run, "Store (%s configuration): %s" % (fam, invariants_note))
+    return run
+
+
+def store_check(ctx, fams, profiles, n_quick, n_thorough, explanation, extra=None):
+    th = ctx.thorough
+    runs = [store_mc(ctx, f, explanation[:80]) for f in fams]
+    tot = {"accepted": 0, "events": 0, "histories": 0, "states": 0}
+    samples = []
+    for p in profiles:
+        r, st = store_random(ctx, p, n_thorough if th else n_quick, parts=16 if th else 8)
+        for k in tot:
+            tot[k] += st[k]
+        samples += (r.get("samples") or [])[:1]
+    cov = {"states": sum(r.distinct for r in runs), "transitions": sum(r.generated for r in runs),
+           "traces_validated_against_impl": tot["accepted"], "samples": samples,
+           "trace_events_validated": tot["events"], "histories_recorded": tot["histories"],
+           "explanation": explanation}
+    if extra:
+        cov.update(extra)
+    return cov
+
+
+@check("C10")
+def c10(ctx):
+    cov = store_check(ctx, ["init"], ["init"], 150, 2500,
+                      "Store.tla models construction: cache load (only a well-formed document is used), stubs, init rounds (one Get per missing "
+                      "secret per round, never for a secret already obtained), doubling back-off 1 ms..4096 ms, the caller's deadline, the final "
+                      "flush. TLC checks InitOK / LookupGate / HandleNeverDangles over declared sets x cache classes x failure scripts x deadlines; "
+                      "random scripted-service histories of the real NewStore under testing/synctest (virtual time) are validated line by line: every "
+                      "request, its timestamp (so the back-off delays and the prompt return at the deadline are exact), the cache write and the return")
+    extra = store_special(ctx, "TestStoreSpecial")
+    cov["special_cases"] = extra
+    return "model_checking", cov, ["time is virtual (testing/synctest); the scripted StoreClient honours contexts like the HTTP client does"]
+
+
+@check("C11")
+def c11(ctx):
+    cov = store_check(ctx, ["poll"], ["poll", "tick"], 150, 2500,
+                      "Store.tla models a poll as snapshot / one request at a time / apply-or-abort / flush, with overlapping Refresh callers joining "
+                      "the round in flight. TLC checks PollConverges (every known secret ends at a version that was active during the poll), Coalesce "
+                      "and that an aborted poll changes nothing, over all interleavings of activations (forwards and backwards), failures and two "
+                      "refresh callers; random histories of the real store (scripted service, gated requests) are validated line by line")
+    cad = store_special(ctx, "TestCadence")
+    cov["cadence"] = cad
+    return "model_checking", cov, ["freshness is judged by version number, as the protocol does"]
+
+
+@check("C16")
+def c16(ctx):
+    cov = store_check(ctx, ["lookup"], ["lookup"], 200, 3000,
+                      "Store.tla models lookups: the gate (no request when lookups are disabled), one flight per name, per-caller contexts with the "
+                      "five-minute fallback, retry after the leader's context ended, give-up at the caller's own deadline. TLC checks LookupGate, "
+                      "Bounded and NotCollateral over callers x deadlines x cancellations x services that answer, fail or hang (explicit clock); "
+                      "random histories of the real store under synctest (hanging service, clock advanced up to 20 virtual minutes) are validated")
+    return "model_checking", cov, ["virtual time; a hanging service is a request the driver never releases"]
+
+
+@check("C19")
+def c19(ctx):
+    cov = store_check(ctx, ["expiry"], ["expiry"], 150, 2500,
+                      "Store.tla models expiry: a secret is marked expired in the poll snapshot iff undeclared, an age is set, not read for longer "
+                      "than the age and no handle exists; it is dropped at the end of a successful poll unless a handle appeared meanwhile. TLC "
+                      "checks DropRule / NeverDropDeclared / HandleNeverDangles over reads, handles, polls, clock steps and restarts from caches with "
+                      "any stamps (incl. 0); random histories of the real store with the virtual clock are validated, incl. persisted access stamps")
+    return "model_checking", cov, ["the clock is the synctest bubble's; stamps are whole seconds as in the cache document"]
+
+
+def store_special(ctx, test):
+    results, wd, _ = ctx.godrive("store", "^%s$" % test, name=test)
+    name = {"TestStoreSpecial": "store-special", "TestCadence": "store-cadence"}[test]
+    r = ctx.take(results, name)
+    out = dict(r["counters"])
+    if test == "TestStoreSpecial":
+        st = validate_branching(ctx, "StoreTrace", "StoreTrace.cfg", os.path.join(wd, "trace.ndjson"), 2, "store/fileclient",
+                                {"dict.ndjson": os.path.join(wd, "dict.ndjson")}, describe=describe_store_event)
+        out["validated"] = st["accepted"]
+    else:
+        run = ctx.tlc("Cadence", "Cadence.cfg", files={"trace.ndjson": os.path.join(wd, "trace.ndjson")}, workers=1, name="cadence")
+        if run.code != 0:
+            hw = None
+            for ln in open(run.out, errors="replace"):
+                if ln.startswith('<<"HW", '):
+                    hw = int(ln.split(",")[1].strip(" >\n"))
+            if hw is None:
+                raise ToolTrouble("TLC failed on Cadence:\n" + run.tail(30))
+            lines = open(os.path.join(wd, "trace.ndjson")).read().splitlines()
+            ctx.violation("cadence line %s" % lines[min(hw, len(lines)) - 1][:80],
+                          "background poll times are not one fixed period within +/-10%% of the interval: TLC stops at line %d: %s (previous: %s)" % (
+                              hw, lines[min(hw, len(lines)) - 1], lines[max(0, hw - 3):hw - 1]), {"kind": "cadence", "lines": lines[max(0, hw - 10):hw + 2]})
+        out["validated"] = 1 if run.code == 0 else 0
+    return out
